@@ -57,6 +57,7 @@ type driver struct {
 	roe                bool
 	tail               sonic.Slot
 	tailSeq            int
+	tailRefused        bool
 	popped             sonic.Slot
 	orig               map[int]int // seq -> index at Save time
 	offsetUsed         bool
@@ -149,6 +150,7 @@ func (d *driver) call(g Ev, e *Ev) {
 		d.b.Commit(len(p))
 		d.tail = d.b.Save(len(p))
 		d.tailSeq = g.Seq
+		d.tailRefused = false
 		e.Idx, e.Len = d.units(d.tail.Index), d.units(d.tail.Length)
 	case "Push":
 		var ok bool
@@ -179,6 +181,7 @@ func (d *driver) call(g Ev, e *Ev) {
 			}
 		}
 		e.Err = errClass(err)
+		d.tailRefused = !ok
 		if ok {
 			e.Ok = 1
 			d.orig[d.tailSeq] = d.tail.Index
@@ -311,13 +314,10 @@ func Run(in, out, mode string) error {
 		}
 		sum.Scenarios++
 		d := &driver{f: f, oc: oc}
-		for i, g := range steps {
-			if g.Ev == "Pop" && d.off != nil {
-				if _, has := d.handles[g.Seq]; !has {
-					sum.Drift++ // the real code left the model's path earlier
-					break
-				}
-			}
+		line := 0
+		dead := false
+		// do issues one call, records it and reports whether the object is still usable
+		do := func(g Ev, predicted *Ev) {
 			e := Ev{C: "ss", Ev: g.Ev, Mode: steps[0].Mode, Roe: steps[0].Roe, Maxslots: steps[0].Maxslots,
 				Maxbytes: steps[0].Maxbytes, Seq: g.Seq, V: g.V, N: g.N,
 				Toks: []int{}, Slotbytes: []int{}, Saved: []int{}, Data: []int{}, Wr: []int{}}
@@ -325,22 +325,64 @@ func Run(in, out, mode string) error {
 			if e.Panic == 0 {
 				d.observe(&e)
 			}
-			e.Sid, e.I = idx, i+1
+			line++
+			e.Sid, e.I = idx, line
 			w.Emit(e)
-			if !same(g, e) {
+			if predicted == nil || !same(*predicted, e) {
 				sum.Drift++
 				if sum.FirstDrift == nil {
-					sum.FirstDrift = map[string]any{"sid": idx, "i": i + 1, "predicted": g, "observed": e, "panic": e.PanicMsg}
+					sum.FirstDrift = map[string]any{"sid": idx, "i": line, "predicted": predicted, "observed": e, "panic": e.PanicMsg}
 				}
 			}
 			if e.Panic != 0 {
-				break
+				dead = true
 			}
-			if (g.Ev == "Push" || g.Ev == "Pop") && e.Ok != g.Ok {
-				// the real object took another branch than the model: the rest of the
-				// generated history no longer follows the workflow (the event itself is judged)
-				break
+		}
+		// The generated history is followed as long as the real objects take the
+		// model's branches. When they do not (a Push or Pop with another result),
+		// the rest is still replayed, kept inside the documented workflow: a
+		// refused slot is dropped, a popped slot is discarded, steps that have
+		// become impossible are skipped.
+		for i := 0; i < len(steps) && !dead; i++ {
+			g := steps[i]
+			hasTail := d.tail.Length > 0
+			hasPopped := d.popped.Length > 0
+			if hasTail && d.tailRefused && g.Ev != "DropTail" {
+				do(Ev{Ev: "DropTail", Seq: d.tailSeq}, nil)
+				if dead {
+					break
+				}
+				hasTail = false
 			}
+			if hasPopped && g.Ev != "Discard" && g.Ev != "Live" && g.Ev != "Unc" && g.Ev != "Eat" && g.Ev != "Shrink" {
+				do(Ev{Ev: "Discard"}, nil)
+				if dead {
+					break
+				}
+				hasPopped = false
+			}
+			skip := false
+			switch g.Ev {
+			case "Push":
+				skip = !hasTail
+			case "DropTail":
+				skip = !hasTail
+			case "Discard":
+				skip = !hasPopped
+			case "Save":
+				_, held := d.handles[g.Seq]
+				skip = hasTail || (d.off != nil && held)
+			case "Pop":
+				_, held := d.handles[g.Seq]
+				skip = hasTail || hasPopped || (d.off != nil && !held)
+			case "Live":
+				skip = hasTail
+			}
+			if skip {
+				sum.Drift++
+				continue
+			}
+			do(g, &g)
 		}
 		// non-trivial: a slot was retrieved at an index other than the one it was saved at
 		if d.offsetUsed {
